@@ -1,0 +1,187 @@
+//go:build verif
+
+package rsync
+
+// Contracts for the rsync engine, property C19: every operation handed to the
+// transmitter is well formed and within bounds, literal operations never
+// exceed the size limit, and the engine is memory safe (no index, slice or
+// conversion can fail, the explicit panics are unreachable) for every valid
+// signature. Comment-only file: compiled only under the "verif" build tag,
+// contains no code. The "//@" lines are read by /verif/govc. The contracts
+// for error propagation (property C20) are in zz_contracts_verif.go; blocks
+// for the same function are merged.
+//
+// Ghost state summarising the operations that went through the operation
+// transmitter (updated by the transmitter's contract on every call):
+//   txmalformed  some transmitted operation violated Operation.EnsureValid
+//   txmaxdata    largest len(Data) of all transmitted operations
+//   txmaxend     largest Start+Count of all transmitted operations
+//   txdata       number of transmitted operations that carry literal data
+
+//@ ghost txmalformed bool
+//@ ghost txmaxdata int
+//@ ghost txmaxend int
+//@ ghost txdata int
+
+// opvalid is the predicate of (*Operation).EnsureValid (proved equivalent
+// below); sigvalid that of (*Signature).EnsureValid as far as the engine needs
+// it (block hashes non-nil; sizes consistent).
+//@ pred opvalid(o) = o != nil && (len(o.Data) > 0 ? (o.Start == 0 && o.Count == 0) : o.Count > 0)
+//@ pred sigsizes(s) = s.BlockSize == 0 ? (s.LastBlockSize == 0 && len(s.Hashes) == 0) : (0 < s.LastBlockSize && s.LastBlockSize <= s.BlockSize && len(s.Hashes) > 0)
+//@ pred sigvalid(s) = s != nil && (forall k in 0..len(s.Hashes) :: s.Hashes[k] != nil) && sigsizes(s)
+// the maximum data operation size in effect
+//@ spec effmax(m) int = m == 0 ? DefaultMaximumDataOperationSize : m
+// the search buffer (maximum data operation size plus one block) can be allocated
+//@ pred bufferfits(s, m) = effmax(m) + s.BlockSize <= 9223372036854775807
+
+//@ func (*Operation).EnsureValid
+//@   ensures[valid] result == nil <==> opvalid(o)
+
+//@ func (*Signature).EnsureValid
+//@   ensures[valid] result == nil ==> sigvalid(s)
+//@   loop 1 invariant -1 <= rangeindex && rangeindex < len(s.Hashes) || (rangeindex == -1 && len(s.Hashes) == 0)
+//@   loop 1 invariant[valid] forall k in 0..rangeindex+1 :: s.Hashes[k] != nil
+
+//@ iface OperationTransmitter
+//@   params o
+//@   modifies txmalformed, txmaxdata, txmaxend, txdata
+//@   ensures txmalformed == (old(txmalformed) || !opvalid(o))
+//@   ensures txmaxdata == max(old(txmaxdata), len(o.Data))
+//@   ensures txmaxend == max(old(txmaxend), o.Start + o.Count)
+//@   ensures txdata == old(txdata) + (len(o.Data) > 0 ? 1 : 0)
+
+//@ func (*Engine).bufferWithSize
+//@   requires e != nil
+//@   requires[fits] size <= 9223372036854775807
+//@   ensures[size] len(result) == size
+//@   ensures e.operation == old(e.operation)
+//@   modifies e.buffer
+
+//@ func (*Engine).weakHash
+//@   pure
+//@   wraps
+
+//@ func (*Engine).rollWeakHash
+//@   pure
+//@   wraps
+
+// One data operation carrying exactly the given bytes.
+//@ func (*Engine).transmitData
+//@   ensures[op] txmalformed == (old(txmalformed) || len(data) == 0)
+//@   ensures[op] txmaxdata == max(old(txmaxdata), len(data))
+//@   ensures[op] txmaxend == max(old(txmaxend), 0)
+//@   ensures[op] txdata == old(txdata) + (len(data) > 0 ? 1 : 0)
+//@   ensures e.operation == old(e.operation)
+//@   at call OperationTransmitter assert[op] arg0 == e.operation && arg0.Data == data && arg0.Start == 0 && arg0.Count == 0
+//@   modifies e.operation.Data, e.operation.Start, e.operation.Count, e.operation.state, e.operation.sizeCache, e.operation.unknownFields, txfailed, txafterfail, txcalls, txmalformed, txmaxdata, txmaxend, txdata
+
+// One block operation for the given run of blocks.
+//@ func (*Engine).transmitBlock
+//@   ensures[op] txmalformed == (old(txmalformed) || count == 0)
+//@   ensures[op] txmaxdata == max(old(txmaxdata), 0)
+//@   ensures[op] txmaxend == max(old(txmaxend), start + count)
+//@   ensures[op] txdata == old(txdata)
+//@   ensures e.operation == old(e.operation)
+//@   at call OperationTransmitter assert[op] arg0 == e.operation && len(arg0.Data) == 0 && arg0.Start == start && arg0.Count == count
+//@   modifies e.operation.Data, e.operation.Start, e.operation.Count, e.operation.state, e.operation.sizeCache, e.operation.unknownFields, txfailed, txafterfail, txcalls, txmalformed, txmaxdata, txmaxend, txdata
+
+//@ func (*Engine).chunkAndTransmitAll
+//@   requires[fits] effmax(maxDataOpSize) <= 9223372036854775807
+//@   ensures[wellformed] txmalformed == old(txmalformed)
+//@   ensures[limit] txmaxdata <= max(old(txmaxdata), effmax(maxDataOpSize))
+//@   ensures[inrange] txmaxend <= max(old(txmaxend), 0)
+//@   at call io.ReadFull assume result1 == io.ErrUnexpectedEOF ==> result0 > 0
+//@   loop 1 invariant[wellformed] txmalformed == old(txmalformed)
+//@   loop 1 invariant[limit] txmaxdata <= max(old(txmaxdata), maxDataOpSize) && len(buffer) == maxDataOpSize && maxDataOpSize == effmax(old(maxDataOpSize))
+//@   loop 1 invariant[inrange] txmaxend <= max(old(txmaxend), 0)
+
+// sendBlock: the pending run of blocks (coalescedStart, coalescedCount) is
+// extended when the new index continues it, otherwise it is transmitted and a
+// new run of one block starts. Afterwards the pending run ends with index.
+//@ func (*Engine).Deltify$1
+//@   requires[range] index < 9223372036854775807 && coalescedStart + coalescedCount <= 9223372036854775807
+//@   ensures[pending] result == nil ==> coalescedCount > 0 && coalescedStart + coalescedCount == index + 1
+//@   ensures[extend] result == nil && old(coalescedCount) > 0 && old(coalescedStart) + old(coalescedCount) == index ==> coalescedStart == old(coalescedStart) && txcalls == old(txcalls)
+//@   ensures[restart] result == nil && !(old(coalescedCount) > 0 && old(coalescedStart) + old(coalescedCount) == index) ==> coalescedStart == index && coalescedCount == 1
+//@   ensures[flush] result == nil && old(coalescedCount) > 0 && old(coalescedStart) + old(coalescedCount) != index ==> txcalls == old(txcalls) + 1
+//@   ensures[wellformed] txmalformed == old(txmalformed)
+//@   ensures[limit] txmaxdata <= max(old(txmaxdata), 0) && txdata == old(txdata)
+//@   ensures[inrange] txmaxend <= max(old(txmaxend), old(coalescedStart) + old(coalescedCount))
+
+// sendData: a pending run is transmitted first (and cleared) when there is data;
+// the data goes out in chunks of at most maxDataOpSize bytes, none empty.
+//@ func (*Engine).Deltify$2
+//@   requires[limit] maxDataOpSize > 0
+//@   ensures[cleared] result == nil && len(data) > 0 ==> coalescedCount == 0
+//@   ensures[kept] len(data) == 0 ==> coalescedCount == old(coalescedCount) && coalescedStart == old(coalescedStart) && txcalls == old(txcalls)
+//@   ensures[pending] coalescedStart + coalescedCount <= old(coalescedStart) + old(coalescedCount)
+//@   ensures[wellformed] txmalformed == old(txmalformed)
+//@   ensures[limit] txmaxdata <= max(old(txmaxdata), maxDataOpSize)
+//@   ensures[inrange] txmaxend <= max(old(txmaxend), old(coalescedStart) + old(coalescedCount))
+//@   ensures[nodata] len(data) == 0 ==> txdata == old(txdata)
+//@   loop 1 invariant[wellformed] txmalformed == old(txmalformed)
+//@   loop 1 invariant[limit] txmaxdata <= max(old(txmaxdata), maxDataOpSize) && maxDataOpSize > 0
+//@   loop 1 invariant[inrange] txmaxend <= max(old(txmaxend), old(coalescedStart) + old(coalescedCount))
+//@   loop 1 invariant[kept] len(data) <= old(len(data)) && (old(len(data)) == 0 ==> txcalls == old(txcalls) && txdata == old(txdata))
+
+//@ func (*Engine).Deltify
+//@   requires[valid] sigvalid(base)
+//@   requires[fits] bufferfits(base, maxDataOpSize)
+//@   ensures[wellformed] txmalformed == old(txmalformed)
+//@   ensures[limit] txmaxdata <= max(old(txmaxdata), effmax(maxDataOpSize))
+//@   ensures[inrange] txmaxend <= max(old(txmaxend), old(len(base.Hashes)))
+//@   at call panic assert[nopanic] false
+// lookup table: every block index stored in it denotes a full-size block of the base
+//@   loop 1 invariant -1 <= rangeindex && rangeindex < len(hashes) || (rangeindex == -1 && len(hashes) == 0)
+//@   loop 1 invariant[table] forall j in 0..9223372036854775807 :: forall w in 0..4294967296 :: has(weakToBlockHashes, w) && j < len(weakToBlockHashes[w]) ==> weakToBlockHashes[w][j] <= rangeindex
+//@   loop 1 invariant[tablebase] forall w in 0..4294967296 :: has(weakToBlockHashes, w) ==> base(weakToBlockHashes[w]) != 0 && loopfresh(weakToBlockHashes[w])
+//@   loop 1 invariant[separate] forall w in 0..4294967296 :: forall v in 0..4294967296 :: has(weakToBlockHashes, w) && has(weakToBlockHashes, v) && w != v ==> base(weakToBlockHashes[w]) != base(weakToBlockHashes[v])
+// search loop: the buffer is empty or holds at least one block and has room for one more byte
+//@   loop 2 invariant[buffer] len(buffer) == maxDataOpSize + base.BlockSize && maxDataOpSize == effmax(old(maxDataOpSize))
+//@   loop 2 invariant[occupancy] occupancy == 0 || (base.BlockSize <= occupancy && occupancy < len(buffer))
+//@   loop 2 invariant[coalesce] coalescedStart + coalescedCount <= len(base.Hashes)
+//@   loop 2 invariant[wellformed] txmalformed == old(txmalformed)
+//@   loop 2 invariant[limit] txmaxdata <= max(old(txmaxdata), maxDataOpSize)
+//@   loop 2 invariant[inrange] txmaxend <= max(old(txmaxend), len(base.Hashes))
+//@   loop 3 invariant -1 <= rangeindex && rangeindex < len(potentials) || (rangeindex == -1 && len(potentials) == 0)
+//@   loop 3 invariant[entries] forall j in 0..len(potentials) :: potentials[j] < len(base.Hashes)
+//@   loop 3 invariant[match] match ==> matchIndex < len(base.Hashes)
+
+// ---------------------------------------------------------------- Patch
+//
+// sigbase: the base described by the signature has a length that fits the
+// seek offset type (true for every signature computed from a real file).
+// copylen is the number of bytes block k of the base contributes; patchlen
+// the number of bytes an operation contributes to the target.
+//@ pred sigbase(s) = s.BlockSize <= 9223372036854775807 && len(s.Hashes) * s.BlockSize <= 9223372036854775807
+//@ spec copylen(s, k) int = k == len(s.Hashes) - 1 ? s.LastBlockSize : s.BlockSize
+//@ spec patchlen(s, o) int = len(o.Data) > 0 ? len(o.Data) : (o.Start + o.Count == len(s.Hashes) ? (o.Count - 1) * s.BlockSize + s.LastBlockSize : o.Count * s.BlockSize)
+
+//@ func (*Engine).Patch
+//@   requires e != nil && signature != nil && operation != nil
+//@   requires[valid] opvalid(operation) && sigvalid(signature)
+//@   requires[inrange] len(operation.Data) == 0 ==> operation.Start + operation.Count <= len(signature.Hashes)
+// (unsigned fields: stated because contract reads carry no range facts)
+//@   requires 0 <= operation.Start && 0 <= operation.Count && 0 <= signature.BlockSize && 0 <= signature.LastBlockSize
+//@   requires[fits] sigbase(signature)
+//@   ensures[length] result == nil ==> accepted[destination] == old(accepted[destination]) + patchlen(signature, operation)
+//@   at call io.Writer.Write assert[data] len(operation.Data) > 0 ==> arg1 == operation.Data
+//@   at call io.Seeker.Seek assert[offset] arg1 == operation.Start * signature.BlockSize && arg2 == io.SeekStart
+//@   at call (*Engine).bufferWithSize assert[copylen] arg1 == copylen(signature, operation.Start + c)
+//@   at call io.ReadFull assert[copylen] len(arg1) == copylen(signature, operation.Start + c)
+//@   at call io.Writer.Write assert[copied] len(operation.Data) == 0 ==> len(arg1) == copylen(signature, operation.Start + c) && forall i in 0..len(arg1) :: arg1[i] == lastread[i]
+//@   loop 1 invariant[length] c <= operation.Count && accepted[destination] == old(accepted[destination]) + c * signature.BlockSize - (c > 0 && operation.Start + c == len(signature.Hashes) ? signature.BlockSize - signature.LastBlockSize : 0)
+
+// ---------------------------------------------------------------- Signature
+//
+// Every signature the engine computes satisfies the validity predicate that
+// Deltify and Patch require (for any base and any block size).
+//@ func (*Engine).Signature
+//@   requires e != nil && e.strongHasher != nil
+//@   requires[fits] blockSize <= 9223372036854775807
+//@   ensures[valid] result1 == nil ==> sigvalid(result0)
+//@   ensures[blocksize] result1 == nil && blockSize != 0 && len(result0.Hashes) > 0 ==> result0.BlockSize == blockSize
+//@   at call io.ReadFull assume result1 == io.ErrUnexpectedEOF ==> result0 > 0
+//@   loop 1 invariant[valid] result != nil && fresh(result) && blockSize > 0 && result.BlockSize == blockSize && len(buffer) == blockSize
+//@   loop 1 invariant[valid] forall k in 0..len(result.Hashes) :: result.Hashes[k] != nil
+//@   loop 1 invariant[valid] eof ==> len(result.Hashes) > 0 && 0 < result.LastBlockSize && result.LastBlockSize < blockSize
